@@ -41,6 +41,7 @@ static int enabled_ops(op_t *o, int max) {
     if ((P.groups & G_QUIT) && (CX.looping ? !CX.quit : (P.groups & G_ILLEGAL) != 0)) { EMIT(O_QUIT, 1); }
     if ((P.groups & G_TICK) && CX.exists) { if (P.variants & 8) { for (int t = 0; t < 3; t++) if (t != CX.tick) EMIT(O_SET_TICK, t); } else EMIT(O_SET_TICK, !CX.tick); }      /* variants 8: two periods (4 ms, 12 ms), else on/off */
     if ((P.groups & G_CTXCALL)) for (int k = 0; k < 6; k++) EMIT(O_CTXCALL, k);
+    if ((P.groups & G_REG) && (CX.exists || (P.groups & G_CTX))) EMIT(O_REG, 0, 8, 0);      /* registration of a run-time loaded module whose file does not exist: fails after the module object was built */
     for (int s = 0; s < NMO; s++) {
         mod_t *m = &MD[s]; int have = handle(s) != NULL;
         if ((P.groups & G_REG) && (CX.exists || (P.groups & G_CTX)) && (!m->present ? (m->extra == 0) : (P.groups & G_ILLEGAL) != 0)) {
@@ -161,7 +162,7 @@ static void fmt_op(op_t op, char *b, size_t cap) {
     case O_QUIT: snprintf(b, cap, "quit(%d)", QCODE[op.a]); break;
     case O_SET_TICK: snprintf(b, cap, "set_tick(%s)", op.a == 1 ? "4ms" : op.a == 2 ? "12ms" : "0"); break;
     case O_CTXCALL: snprintf(b, cap, "ctx_call#%d", op.a); break;
-    case O_REG: snprintf(b, cap, "register(%s,%s,on_start=%s,%s)", A, evn[op.b >> 1], (op.b & 1) ? "true" : "false", MFLAGN[op.d]); break;
+    case O_REG: if (op.b == 8) { snprintf(b, cap, "register(plugin file that does not exist)"); break; } snprintf(b, cap, "register(%s,%s,on_start=%s,%s)", A, evn[op.b >> 1], (op.b & 1) ? "true" : "false", MFLAGN[op.d]); break;
     case O_DEREG: snprintf(b, cap, "deregister(%s)", A); break;
     case O_START: snprintf(b, cap, "start(%s)", A); break;
     case O_PAUSE: snprintf(b, cap, "pause(%s)", A); break;
